@@ -8,7 +8,15 @@ The builder's executor tasks are sequentialised in the order in which they take 
 quantifies. What is builder-only is explicit: the `IsRepeat` skip, the size cap with restore of the
 rest of the batch, the PreExecute-failure drop, Consume *after* execution with skip / stop-at-target,
 the restore list, the stream batches, and the metadata view over a *fake* parent storage made from
-the parent header. The verifier is C01's `execSeq` + `createBlockContext` + `writeBlockContext`.
+the parent header. The verifier is `VerifyExpiryReplayProtection` (no tx of an ancestor inside the
+validity window, no tx twice in the block) + C01's `execSeq` + `createBlockContext` +
+`writeBlockContext`.
+
+Schedule: `sched` maps the txs handed to the executor in one batch to the order in which their
+closures took `blockLock`, each with a flag "the executor skipped the closure" (`e.err != nil` when
+the task was dequeued). A closure that is *not* skipped runs to the end even if another task has set
+`stop` in the meantime (a real in-flight task does). The theorems quantify over all such schedules,
+including ones the executor can never produce (e.g. skipping without an error).
 -/
 namespace HyperModel.Builder
 open HyperModel.BlockExec
@@ -36,12 +44,9 @@ structure BCtx where
   fk : Key
   /-- `feeManager.Bytes()` as a function of (prices, consumed, timestamp) -/
   feeEnc : Dims → Dims → Nat → Val
-
-/-- a streamed mempool entry -/
-structure MTx where
-  tx : Tx
-  /-- `validityWindow.IsRepeat` marks it -/
-  dup : Bool
+  /-- tx ids contained in an ancestor block inside the validity window: what `IsRepeat` marks
+  and what `VerifyExpiryReplayProtection` rejects -/
+  seen : Nat → Bool
 
 def BCtx.exec (c : BCtx) (txs : List Tx) : Ctx :=
   { parent := c.parent, prices := c.prices, maxUnits := c.maxUnits, txs := txs }
@@ -63,18 +68,19 @@ def BState.init (c : BCtx) : BState :=
 
 /-- main goroutine over one streamed batch: size cap (restore the rest of the batch), duplicate skip.
 Returns the txs handed to the executor and the restored tail. -/
-def admitBatch (cap : Nat) : Nat → List MTx → List Tx × List Tx
+def admitBatch (c : BCtx) : Nat → List Tx → List Tx × List Tx
   | _, [] => ([], [])
   | size, m :: rest =>
-    let size' := size + m.tx.size
-    if size' > cap then ([], (m :: rest).map (·.tx))
+    let size' := size + m.size
+    if size' > c.targetTxsSize then ([], m :: rest)
     else
-      let r := admitBatch cap size' rest
-      if m.dup then r else (m.tx :: r.1, r.2)
+      let r := admitBatch c size' rest
+      if c.seen m.id then r else (m :: r.1, r.2)
 
 /-- one executor task of the builder (closure of `e.Run` in `BuildBlock`) -/
-def procTx (c : BCtx) (s : BState) (t : Tx) : BState :=
-  if s.stop || s.failed then
+def procTx (c : BCtx) (s : BState) (x : Tx × Bool) : BState :=
+  let t := x.1
+  if x.2 then
     -- `e.err != nil`: the closure is skipped, the tx stays in `pending` and is restored
     { s with restorable := s.restorable ++ [t] }
   else
@@ -91,12 +97,12 @@ def procTx (c : BCtx) (s : BState) (t : Tx) : BState :=
                  block := s.block ++ [t], results := s.results ++ [mkResult t ls] }
 
 /-- the streaming loop; `sched` is the order in which the executor runs the admitted txs -/
-def buildLoop (c : BCtx) (sched : List Tx → List Tx) : BState → List (List MTx) → BState
+def buildLoop (c : BCtx) (sched : List Tx → List (Tx × Bool)) : BState → List (List Tx) → BState
   | s, [] => s
   | s, b :: rest =>
     if s.stop || s.failed then s
     else
-      let a := admitBatch c.targetTxsSize 0 b
+      let a := admitBatch c 0 b
       let s1 := (sched a.1).foldl (procTx c) { s with restorable := s.restorable ++ a.2 }
       buildLoop c sched s1 rest
 
@@ -130,7 +136,7 @@ structure Built where
   consumed : Dims
   restorable : List Tx
 
-def build (c : BCtx) (sched : List Tx → List Tx) (batches : List (List MTx)) : Option Built :=
+def build (c : BCtx) (sched : List Tx → List (Tx × Bool)) (batches : List (List Tx)) : Option Built :=
   if c.now < c.parentTs + c.minBlockGap then none
   else
     let s := buildLoop c sched (BState.init c) batches
@@ -149,12 +155,19 @@ structure Verified where
   results : List Result
   consumed : Dims
 
+/-- `VerifyExpiryReplayProtection`: no tx of the block is in an ancestor inside the validity
+window, and no tx id occurs twice in the block -/
+def replayFree (c : BCtx) (txs : List Tx) : Bool :=
+  !txs.any (fun t => c.seen t.id) && decide ((txs.map (·.id)).Nodup)
+
 /-- `Processor.Execute` on the same parent view: `createBlockContext` (parent *state*),
-`executeTxs`, `writeBlockContext` through a CompletePermissions view over empty storage -/
+replay protection, `executeTxs`, `writeBlockContext` through a CompletePermissions view over
+empty storage -/
 def verify (c : BCtx) (b : Built) : Option Verified :=
   match c.parent c.hk, c.parent c.tk with
   | some ph, some pt =>
     if b.height ≠ ph + 1 then none
+    else if !replayFree c b.txs then none
     else if b.ts < pt + c.minBlockGap then none
     else if b.txs.isEmpty && b.ts < pt + c.minEmptyBlockGap then none
     else
